@@ -10,6 +10,7 @@ CONSTANTS
   IncOf <- MCIncOf
   KeepHigherIncarnation = FALSE
   ReuseUnattested = FALSE
+  ReadBackFailOpen = FALSE
   StateEarly = FALSE
   InitScenarios = {"fresh", "haskey", "unreadable", "rotated"}
   InitDocs <- DocsV1
